@@ -4,7 +4,8 @@
 import ast
 
 from ..engine import rule
-from ..flow import PRUNE, Violation, explore, implied_atoms, path_ends, \
+from ..flow import PRUNE, Violation, cmp_sides, explore, implied_atoms, \
+    path_ends, \
     path_is, prov_has, provenance, store_value
 from ..model import dotted, walk_local
 from ..twopc import FS, MS
@@ -97,10 +98,10 @@ def r2(R):
 
     def is_back_test(e):
         """dh.back < self.packpos"""
-        return isinstance(e, ast.Compare) and len(e.ops) == 1 and \
-            isinstance(e.left, ast.Attribute) and e.left.attr == 'back' and \
-            isinstance(e.ops[0], (ast.Lt, ast.LtE)) and \
-            dotted(e.comparators[0]) == ('self', 'packpos')
+        return any(isinstance(l, ast.Attribute) and l.attr == 'back' and
+                   op in (ast.Lt, ast.LtE) and
+                   dotted(r) == ('self', 'packpos')
+                   for l, op, r in cmp_sides(e))
 
     def marks(node):
         out = False
@@ -388,9 +389,9 @@ def r6(R):
         checked = st
         if node.kind == 'test' and lab in ('T', 'F'):
             for e, truth in implied_atoms(node.ast, lab):
-                if isinstance(e, ast.Compare) and len(e.ops) == 1 and \
-                        dotted(e.comparators[0]) == ('z64',) and isinstance(
-                            e.left, ast.Name):
+                if any(dotted(r) == ('z64',) and isinstance(l, ast.Name)
+                       and op in (ast.Eq, ast.NotEq)
+                       for l, op, r in cmp_sides(e)):
                     seen.add('time')
                     bad = isinstance(e.ops[0], ast.Eq) == truth
                     return checked | {'time-bad' if bad else 'time-ok'}
@@ -523,9 +524,8 @@ def r8(R):
             # the scan loop: its body compares a record header's oid with
             # the oid searched for
             for c in ast.walk(w):
-                if isinstance(c, ast.Compare) and isinstance(
-                        c.left, ast.Attribute) and c.left.attr == 'oid' and \
-                        len(c.ops) == 1 and isinstance(c.ops[0], ast.Eq):
+                if any(isinstance(l, ast.Attribute) and l.attr == 'oid' and
+                       op is ast.Eq for l, op, r in cmp_sides(c)):
                     scan = w
         R.require(scan is not None,
                   '%s has no scan loop comparing h.oid' % f.qualname)
@@ -539,10 +539,9 @@ def r8(R):
         # leaving the loop on a match (break) is a first-match search too
         for i_ in ast.walk(scan):
             if isinstance(i_, ast.If) and any(
-                    isinstance(c, ast.Compare) and isinstance(
-                        c.left, ast.Attribute) and c.left.attr == 'oid' and
-                    isinstance(c.ops[0], ast.Eq)
-                    for c in ast.walk(i_.test)):
+                    isinstance(l, ast.Attribute) and l.attr == 'oid' and
+                    op is ast.Eq
+                    for c in ast.walk(i_.test) for l, op, r in cmp_sides(c)):
                 for x in i_.body:
                     for y in ast.walk(x):
                         if isinstance(y, ast.Break):
